@@ -694,4 +694,17 @@ def _parseint(ex, ins):
 
 
 pure('strings.TrimSpace')
+for _n in ['strings.Replace', 'strings.TrimPrefix', 'strings.TrimSuffix', 'strings.TrimLeft', 'strings.TrimRight', 'strings.HasPrefix', 'strings.HasSuffix', 'strings.Index', 'strings.Repeat', 'strings.EqualFold', 'strings.Fields']:
+    if _n not in MODELS:
+        pure(_n)
+
+
+@model('strconv.ParseFloat', doc='total function of (string, bit size): a value and an error (two uninterpreted functions)')
+def _parsefloat(ex, ins):
+    vc = ex.vc
+    a = _args(ex, ins)
+    fv = vc.ufun('ext.strconv.ParseFloat.val', [x.sort for x in a], 'F64')
+    fe = vc.ufun('ext.strconv.ParseFloat.err', [x.sort for x in a], 'Any')
+    args = ' '.join(x.term for x in a)
+    ex.vals[ins['n']] = [V('(%s %s)' % (fv, args), 'F64', 'float64'), V('(%s %s)' % (fe, args), 'Any', 'error')]
 
